@@ -454,3 +454,9 @@ def wkey(rec):
 def san_weight(w, wmin, wmax, eps):
     """the weight `_sanitize_gel_for_write` stores for an input weight w"""
     return ite(absr(round6(clampf_snap(w, wmin, wmax))) < eps, 0.0, round6(clampf_snap(w, wmin, wmax)))
+
+
+@spec
+def arrow_key(rec):
+    """the undirected "a→b" key of an edge record (clematis/engine/snapshot.py: write_snapshot / load_latest_snapshot)"""
+    return ite(rec['src'] <= rec['dst'], rec['src'] + '→' + rec['dst'], rec['dst'] + '→' + rec['src'])
